@@ -128,14 +128,22 @@ class _Sink:
         pass
 
 
+class _Tty(io.StringIO):
+    """a stand-in for sys.stdout that reports an interactive terminal"""
+
+    def isatty(self):
+        return True
+
+
 @contextlib.contextmanager
 def quiet():
     """Swallow evo's stdout/stderr chatter while a workload runs."""
     out, err = sys.stdout, sys.stderr
     _QUIET_CALLS[0] += 1
-    # every third time the replacement is a minimal writer (write / flush only), as logging
+    # every fourth time the replacement is a minimal writer (write / flush only), as logging
     # frameworks and GUI consoles install them
-    sys.stdout = _Sink() if _QUIET_CALLS[0] % 3 == 0 else io.StringIO()
+    # ... and every fourth time an object that says it is an interactive terminal
+    sys.stdout = _Sink() if _QUIET_CALLS[0] % 4 == 0 else _Tty() if _QUIET_CALLS[0] % 4 == 2 else io.StringIO()
     sys.stderr = io.StringIO()
     try:
         yield
